@@ -264,8 +264,11 @@ fn run_rcase(c: &RCase, rep: &mut Report, lines: &mut Vec<(String, String)>) {
     let out = match enc {
         Ok(o) => o,
         Err(e) => {
-            let kind = if e.starts_with("panic") { "panic" } else if e == "livelock" { "livelock" } else { "encode-fail" };
-            rep.violation(&format!("recoder:{}:{}", kind, dtag), &format!("encoder with log_meta_block: {}", e), c.json());
+            let sig = if e.contains("stride_data.len() << 3") { "recoder:panic:choose-stride-assert".to_string() }
+                else if e.contains("copy_len") { format!("recoder:panic:copy-len-assert:{}", dtag) }
+                else if e.starts_with("panic") { format!("recoder:panic:other:{}", dtag) }
+                else if e == "livelock" { format!("recoder:livelock:{}", dtag) } else { format!("recoder:encode-fail:{}", dtag) };
+            rep.violation(&sig, &format!("encoder with log_meta_block: {}", e), c.json());
             return;
         }
     };
@@ -291,7 +294,7 @@ fn run_rcase(c: &RCase, rep: &mut Report, lines: &mut Vec<(String, String)>) {
 fn rcases(thorough: bool, seed: u64) -> Vec<RCase> {
     let mut rng = Rng::new(seed ^ 0x4ec0_de4);
     let mut cs = Vec::new();
-    let n = if thorough { 6000 } else { 900 };
+    let n = if thorough { 12000 } else { 2000 };
     for i in 0..n {
         let q = 2 + (i % 10) as i32;
         let lgwin = *rng.pick(&[10i32, 10, 12, 12, 14, 16, 16, 18, 20, 22]);
@@ -563,7 +566,34 @@ fn tables_answer() -> String {
         kBrotliDictionaryOffsetsByLength.iter().map(|x| x.to_string()).collect::<Vec<_>>().join(","), kBrotliDictionary.len())
 }
 
+/// smallest-input search for the `choose_stride` assertion (stride_detection_quality >= 3 and 3, 7, 15, .. literal blocks)
+fn probe() {
+    std::panic::set_hook(Box::new(|_| {}));
+    let mut rng = Rng::new(77);
+    for q in [5, 6, 9, 10, 11] {
+        for size in [600usize, 1200, 2500, 5000, 10000, 20000, 40000] {
+            for trial in 0..40 {
+                // three regimes: text, noise-ish small alphabet, digits
+                let mut v: Vec<u8> = Vec::new();
+                let seg = size / 3;
+                while v.len() < seg { v.extend_from_slice(TEXT); }
+                v.truncate(seg);
+                for _ in 0..seg { v.push(128 + (rng.next() % 64) as u8); }
+                for i in 0..seg { v.push(b'0' + ((i * 7 + trial) % 10) as u8); }
+                let mut p = base_params(q, 18);
+                p.log_meta_block = true;
+                p.stride_detection_quality = 3;
+                let mut nbl = 0usize;
+                let r = encode_stream_x(&v, &[], false, &p, &[1 << 22], 1 << 16, &mut |_, cmds: &mut [interface::StaticCommand], _, _| { nbl = cmds.iter().filter(|c| matches!(c, IrCmd::BlockSwitchLiteral(_))).count(); });
+                if let Err(e) = r { println!("q{} size {} trial {}: {}", q, v.len(), trial, e); println!("  (text x {} ++ {} bytes 128+(prng%64) ++ {} digits)", seg, seg, seg); return; }
+                if trial == 0 { println!("q{} size {}: ok, {} literal block switches", q, v.len(), nbl); }
+            }
+        }
+    }
+}
+
 pub fn run_cmd(args: &Args) {
+    if args.rest.first().map(|s| s.as_str()) == Some("probe") { probe(); return; }
     let thorough = args.tier == "thorough";
     let mut corr = Corr::new(&args.out);
     let mut rep = Report::default();
